@@ -134,10 +134,11 @@ type Server struct {
 	intercept InterceptFn
 	onConnect func(*Conn)
 
-	evstack [][]Event // event buffers of the commands currently executing
-	current *Conn     // connection whose top-level command is executing
-	depth   int       // execution nesting (EXEC, scripts, nested Do)
-	inAfter bool      // afterCommand is running
+	evstack  [][]Event       // event buffers of the commands currently executing
+	deferred []deferredFrame // frames kept back until the buffered events are delivered
+	current  *Conn           // connection whose top-level command is executing
+	depth    int             // execution nesting (EXEC, scripts, nested Do)
+	inAfter  bool            // afterCommand is running
 
 	track     map[string]map[*Conn]struct{} // tracking table: key -> connections that may cache it
 	selfInval []invalidation                // invalidations owed to s.current, sent after its reply
@@ -416,6 +417,9 @@ func (s *Server) endBuf(first *Event) {
 	}
 	for _, ev := range buf {
 		s.emit(ev)
+	}
+	if len(s.evstack) == 0 {
+		s.flushDeferred() // the events are out: now the frames may follow
 	}
 }
 
